@@ -9,6 +9,7 @@ import (
 	"fmt"
 	"hash"
 	"io"
+	"math"
 	"net"
 	"strconv"
 	"strings"
@@ -368,11 +369,22 @@ func readMessage(r io.Reader, header *wire.MessageHeader, msg wire.Message) erro
 		rc = r
 	}
 
-	// Read payload.
-	payload := make([]byte, header.Length)
-	if _, err := io.ReadFull(rc, payload); err != nil {
+	// Read payload. The declared length must not size the allocation because message types without
+	// a practical maximum (tx, and anything in an extended message) would let a peer make us allocate
+	// any amount, or abort on a length that can't be allocated, without sending the data. The
+	// buffer grows with what is actually received.
+	if header.Length > uint64(math.MaxInt64) {
+		return errors.Wrap(ErrMessageTooLarge, fmt.Sprintf("%s: %d b", header.CommandString(),
+			header.Length))
+	}
+	payloadBuffer := &bytes.Buffer{}
+	if _, err := io.CopyN(payloadBuffer, rc, int64(header.Length)); err != nil {
+		if err == io.EOF {
+			err = io.ErrUnexpectedEOF
+		}
 		return errors.Wrap(err, "read")
 	}
+	payload := payloadBuffer.Bytes()
 
 	// Extended messages don't use a checksum.
 	if checkSum != nil {
